@@ -291,8 +291,10 @@ def _program(rng, *, n_state=(1, 5), n_control=(0, 3), n_calib=(0, 3), n_sensor=
         sensors[sn] = _shuffled_dict(rng, rd)
         if rng.random() < 0.15:
             # well characterised and poor channels on one sensor: variances many orders of magnitude apart
-            sensor_noises[sn] = _shuffled_dict(
-                rng, {rn: float(f"{10.0 ** rng.uniform(-9, 4):.3e}") for rn in rnames})
+            wide = {rn: float(f"{10.0 ** rng.uniform(-9, 4):.3e}") for rn in rnames}
+            # at least one channel at or below 1e-8 (a laser range good to 10 um, microsecond timing)
+            wide[rng.choice(rnames)] = float(f"{10.0 ** rng.uniform(-10.5, -8.2):.3e}")
+            sensor_noises[sn] = _shuffled_dict(rng, wide)
         else:
             sensor_noises[sn] = _shuffled_dict(
                 rng, {rn: round(rng.uniform(0.05, 4.0), 3) for rn in rnames})
